@@ -375,6 +375,35 @@ func awkClass(args string) string {
 	return args
 }
 
+// c08CrossCompare compares structures holding DIFFERENT awkward values with each other, in both
+// directions and both as Stack elements and as Condition expressions: comparing never panics.
+func c08CrossCompare(c *Ctx) int {
+	aw := awkwardAny()
+	val := func(v namedValue) any {
+		if !v.V.IsValid() || (v.V.Kind() == reflect.Interface && v.V.IsNil()) {
+			return nil
+		}
+		return v.V.Interface()
+	}
+	n := 0
+	parallelFor(len(aw), func(i int) {
+		for j := range aw {
+			a, b := val(aw[i]), val(aw[j])
+			c.Transitions.Add(2)
+			s1, s2 := stackage.And().Push("lead", a), stackage.And().Push("lead", b)
+			if p := noPanic(func() { s1.IsEqual(s2) }); p != "" {
+				c.Violation("panic:IsEqual-cross:"+awkClass(aw[i].N), fmt.Sprintf("And(lead, %s).IsEqual(And(lead, %s)) panicked: %s", aw[i].N, aw[j].N, p), nil, 0)
+			}
+			c1, c2 := stackage.Cond("k", stackage.Eq, a), stackage.Cond("k", stackage.Eq, b)
+			if p := noPanic(func() { c1.IsEqual(c2) }); p != "" {
+				c.Violation("panic:Cond.IsEqual-cross:"+awkClass(aw[i].N), fmt.Sprintf("Cond(k,=,%s).IsEqual(Cond(k,=,%s)) panicked: %s", aw[i].N, aw[j].N, p), nil, 0)
+			}
+		}
+	})
+	n = len(aw) * len(aw) * 2
+	return n
+}
+
 func c08IntCases(c *Ctx) []c08IntCase {
 	var out []c08IntCase
 	maxLen := 3
@@ -474,7 +503,9 @@ func init() {
 		parallelFor(len(cases), func(i int) { c08IntRun(c, cases[i], true) })
 		ng := c08GenericInts(c)
 		nv := c08ValueCases(c, true)
-		c.States.Store(int64(len(cases) + nv + ng))
+		nx := c08CrossCompare(c)
+		c.Bound["cross_comparisons"] = nx
+		c.States.Store(int64(len(cases) + nv + ng + nx))
 		c.Exhaustive = true
 		c.Bound["int_cases"] = len(cases)
 		c.Bound["value_cases"] = nv
